@@ -460,18 +460,29 @@ fn derive_func_op_shape(def: &FuncOpDef, symbol_table: &mut BTreeMap<Rc<str>, Sh
         FuncOpDef::Map(MapFilterOpDef { func, target, pos }) => {
             let target_shape = target.derive_shape(symbol_table);
             let func_shape = func.derive_shape(symbol_table);
-            // target must be a list
+            // target must be a list, tuple or string
             match &target_shape {
                 Shape::List(_) | Shape::Hole(_) => {}
                 Shape::Narrowed(NarrowedShape {
                     types: NarrowingShape::Any,
                     ..
                 }) => {}
+                // Mapping over a tuple produces a tuple whose fields we don't model.
+                Shape::Tuple(_) => {
+                    return Shape::Narrowed(NarrowedShape {
+                        pos: pos.clone(),
+                        types: NarrowingShape::Any,
+                    });
+                }
+                // Mapping over a string produces a string.
+                Shape::Str(_) => {
+                    return Shape::Str(pos.clone());
+                }
                 _ => {
                     return Shape::TypeErr(
                         pos.clone(),
                         format!(
-                            "map target must be a list, got {}",
+                            "map target must be a list, tuple or string, got {}",
                             target_shape.type_name()
                         ),
                     );
@@ -492,9 +503,14 @@ fn derive_func_op_shape(def: &FuncOpDef, symbol_table: &mut BTreeMap<Rc<str>, Sh
         FuncOpDef::Filter(MapFilterOpDef { func, target, pos }) => {
             let target_shape = target.derive_shape(symbol_table);
             let _func_shape = func.derive_shape(symbol_table);
-            // target must be a list, return type is same list type
+            // target must be a list, tuple or string. The return type is the same
+            // type, except that a filtered tuple can lose fields.
             match &target_shape {
-                Shape::List(_) => target_shape,
+                Shape::List(_) | Shape::Str(_) => target_shape,
+                Shape::Tuple(_) => Shape::Narrowed(NarrowedShape {
+                    pos: pos.clone(),
+                    types: NarrowingShape::Any,
+                }),
                 Shape::Hole(_) => Shape::List(NarrowedShape {
                     pos: pos.clone(),
                     types: NarrowingShape::Any,
@@ -509,7 +525,7 @@ fn derive_func_op_shape(def: &FuncOpDef, symbol_table: &mut BTreeMap<Rc<str>, Sh
                 _ => Shape::TypeErr(
                     pos.clone(),
                     format!(
-                        "filter target must be a list, got {}",
+                        "filter target must be a list, tuple or string, got {}",
                         target_shape.type_name()
                     ),
                 ),
@@ -524,9 +540,9 @@ fn derive_func_op_shape(def: &FuncOpDef, symbol_table: &mut BTreeMap<Rc<str>, Sh
             let target_shape = target.derive_shape(symbol_table);
             let acc_shape = acc.derive_shape(symbol_table);
             let func_shape = func.derive_shape(symbol_table);
-            // target must be a list
+            // target must be a list, tuple or string
             match &target_shape {
-                Shape::List(_) | Shape::Hole(_) => {}
+                Shape::List(_) | Shape::Tuple(_) | Shape::Str(_) | Shape::Hole(_) => {}
                 Shape::Narrowed(NarrowedShape {
                     types: NarrowingShape::Any,
                     ..
@@ -535,7 +551,7 @@ fn derive_func_op_shape(def: &FuncOpDef, symbol_table: &mut BTreeMap<Rc<str>, Sh
                     return Shape::TypeErr(
                         pos.clone(),
                         format!(
-                            "reduce target must be a list, got {}",
+                            "reduce target must be a list, tuple or string, got {}",
                             target_shape.type_name()
                         ),
                     );
